@@ -34,6 +34,11 @@ type SPScenario struct {
 	PerSender int    `json:"perSender"`
 	Hb        int    `json:"hb"`
 	Seed      int64  `json:"seed"`
+	Yield     int    `json:"yield"`
+	// gate scenarios: when >= 0, after the senders listed before this position in Order have been
+	// released, an inbound TestRequest is injected while the remaining senders are held at the gate
+	// (the session's own reply must not overtake a message that already has its number)
+	ReplyAt int `json:"replyAt"`
 }
 
 type WireRec struct {
@@ -305,7 +310,16 @@ func RunGate(sc *SPScenario) (*WireObs, string) {
 		case <-time.After(300 * time.Millisecond):
 		}
 	}
-	for _, target := range sc.Order {
+	injectReply := func() {
+		// wait until at least one sender is parked at the gate, then let the inbound path produce a reply
+		collect(40*time.Millisecond, -1)
+		h.ServeIncoming(Inbound(p.next("testreq", 0), peerID, ourID, ts(time.Now())))
+		time.Sleep(30 * time.Millisecond)
+	}
+	for pos, target := range sc.Order {
+		if sc.ReplyAt == pos {
+			injectReply()
+		}
 		if released[target] {
 			continue
 		}
@@ -329,6 +343,9 @@ func RunGate(sc *SPScenario) (*WireObs, string) {
 				collect(50*time.Millisecond, target)
 			}
 		}
+	}
+	if sc.ReplyAt >= len(sc.Order) {
+		injectReply()
 	}
 	g.mu.Lock()
 	g.on = false
@@ -363,7 +380,7 @@ func RunGate(sc *SPScenario) (*WireObs, string) {
 // RunStress: free-running senders, inbound replies and both timers in virtual time.
 func RunStress(t *testing.T, sc *SPScenario) (obs *WireObs, failure string) {
 	synctest.Test(t, func(t *testing.T) {
-		r, err := NewRig(Cfg{Role: sc.Role, HbMin: 1, HbMax: 60, HbCfg: sc.Hb, EncCfg: "0", CloseMs: 1000, StartSeq: sc.StartSeq, Buf: sc.Buf})
+		r, err := NewRig(Cfg{Role: sc.Role, HbMin: 1, HbMax: 60, HbCfg: sc.Hb, EncCfg: "0", CloseMs: 1000, StartSeq: sc.StartSeq, Buf: sc.Buf, Yield: sc.Yield})
 		if err != nil {
 			failure = err.Error()
 			return
